@@ -5523,6 +5523,9 @@ func (t *Terminal) Loop() error {
 				// direction of the movement and the number of lines of the items
 				// around the current scroll offset.
 				var minOffset, maxOffset, lineSum int
+				// offset-up and offset-down can leave the offset out of range
+				// until the list is rendered
+				t.constrain()
 				if direction > 0 {
 					maxOffset = t.offset
 					for ; maxOffset < t.merger.Length(); maxOffset++ {
